@@ -216,7 +216,9 @@ func judge(run *mon.Run, sc scenario, calls []call) {
 		keys = append(keys, k)
 		perID[k.id] = append(perID[k.id], k.r)
 	}
-	sort.Slice(keys, func(i, j int) bool { return keys[i].id < keys[j].id || (keys[i].id == keys[j].id && keys[i].r < keys[j].r) })
+	sort.Slice(keys, func(i, j int) bool {
+		return keys[i].id < keys[j].id || (keys[i].id == keys[j].id && keys[i].r < keys[j].r)
+	})
 	// ResetAtMs identifies a window: two windows of one identifier never overlap (a new one starts only after the old one ended)
 	for id, rs := range perID {
 		sort.Slice(rs, func(i, j int) bool { return rs[i] < rs[j] })
